@@ -1,7 +1,388 @@
-"""File operations over SimFS (C01-C07, C09, C13 file clause). Filled in below."""
+"""File operations over SimFS (C01-C07, C09, C13 file clause, C15 writers).
+
+  fs.install   generator content (a format doc rendered by the reference printer) -> SimFS
+  io.read      X.read_file(path)          oracle: reference parse of the stored bytes
+  io.write     x.write_file(path)         oracle: reference parse of the written bytes
+
+Acknowledgement = normal return: whenever read_file / write_file returns normally
+the full oracle applies, whatever the device did meanwhile; an injected error
+fault only adds "the call may raise" (DESIGN §4.6)."""
 from __future__ import annotations
+
+import pathlib
+
+from .. import fields
+from ..engine import OpSpec, Outcome, lib_call, HarnessError
+from ..simfs import SimFS, Patched, IoCtx
+from ..snap import alpha_map, alpha_mapset, snapshot, digest
+from . import register
+from .lists import unexpected
+
+STALE_LONG = (b"// stale content of an older, longer file\r\n" + b"#99999:ZZZZ;\n0,0,0,0,0,0,0,0\n" * 40) * 60
+STALE_SHORT = b"stale\n"
+
+
+class GameIO:
+    """Per-format plumbing: how to call the library and how to judge the result."""
+
+    name = "?"
+    kind = "map"
+    prop_read = None
+    prop_write = None
+    ext = ".txt"
+
+    def ref(self):
+        raise NotImplementedError
+
+    def render(self, doc, fmt) -> bytes:
+        return self.ref().render(doc, fmt)
+
+    def parse(self, data: bytes, layout=None) -> dict:
+        return self.ref().parse(data)
+
+    def read(self, path, layout=None):
+        raise NotImplementedError
+
+    def write(self, obj, path, layout=None):
+        raise NotImplementedError
+
+    def alpha(self, obj):
+        return alpha_map(obj) if self.kind == "map" else alpha_mapset(obj)
+
+    def cmp_read(self, den, a, layout=None) -> list[str]:
+        raise NotImplementedError
+
+    def cmp_write(self, a, den, layout=None) -> list[str]:
+        raise NotImplementedError
+
+    def cmp_gen(self, den_k, den_1) -> list[str]:
+        raise NotImplementedError
+
+    def writable(self, a, layout=None) -> str:
+        """'' if the in-memory object lies in the writer property's quantifier domain."""
+        return ""
+
+
+IO: dict[str, GameIO] = {}
+
+
+def game_io(cls):
+    IO[cls.name] = cls()
+    return cls
+
+
+def get_fs(sess) -> SimFS:
+    w = sess.world
+    if w.fs is None:
+        w.fs = SimFS(sess.knobs)
+        w.fs.lineage = {}  # path -> denotation of the first written generation
+        w.fs.installed = set()
+    return w.fs
+
+
+def _path_arg(path: str, path_type: str):
+    return pathlib.Path(path) if path_type == "path" else path
+
+
+def run_io(sess, fs: SimFS, plan: dict | None, fn, dry=None):
+    """Run fn() (a library file call) on the simulated device under `plan`.
+    If the plan carries an error fault placed by fraction (`at`), a dry run of the
+    same call without the fault learns the number of raw calls first.
+    Returns (CallResult, IoCtx)."""
+    plan = dict(plan or {})
+    fault = plan.get("fault")
+    if fault and "raw_call" not in fault:
+        if fault["kind"] == "close_error":
+            fault = dict(fault, raw_call=-1)
+        else:
+            saved = dict(fs.files), set(fs.tainted)
+            stats_saved = dict(fs.stats)
+            ctx0 = fs.begin_op(dict(plan, fault=None))
+            with Patched(fs):
+                lib_call(dry or fn)
+            n = ctx0.raw_calls_kind(fault["kind"])
+            fs.files, fs.tainted = dict(saved[0]), set(saved[1])
+            fs.stats.clear()
+            fs.stats.update(stats_saved)
+            k = min(int(float(fault.get("at", 0.0)) * n), max(n - 1, 0)) if n else 0
+            fault = dict(fault, raw_call=k, n_raw=n)
+        plan["fault"] = fault
+    ctx = fs.begin_op(plan)
+    with Patched(fs):
+        res = lib_call(fn)
+    fs.ctx = IoCtx(None, fs.stats)
+    sess.raw_calls += ctx.raw_calls
+    for k in ctx.fired:
+        sess.fault_fired[k] = sess.fault_fired.get(k, 0) + 1
+    return res, ctx
+
+
+def _is_oserror(exc) -> bool:
+    e = exc
+    seen = 0
+    while e is not None and seen < 10:
+        if isinstance(e, OSError):
+            return True
+        e = e.__cause__ or e.__context__
+        seen += 1
+    return False
+
+
+# ---------------------------------------------------------------- ops
+
+@register
+class FsInstall(OpSpec):
+    """The environment holds a file: the reference printer renders a generated doc."""
+
+    name = "fs.install"
+    operand_keys = ()
+    output_keys = ()
+
+    def run(self, sess, op):
+        out = Outcome(own_kind=False)
+        fs = get_fs(sess)
+        g = IO[op["game"]]
+        if "bytes" in op:
+            data = op["bytes"]
+        else:
+            data = g.render(op["doc"], op.get("fmt") or {})
+        fs.files[op["path"]] = data
+        fs.tainted.discard(op["path"])
+        fs.lineage.pop(op["path"], None)
+        fs.installed.add(op["path"])
+        out.note = ("install", op["game"], op["path"], len(data), digest(data))
+        return out
+
+
+@register
+class IoRead(OpSpec):
+    name = "io.read"
+    operand_keys = ()
+
+    def run(self, sess, op):
+        out = Outcome()
+        fs = get_fs(sess)
+        g = IO[op["game"]]
+        path = op["path"]
+        if path not in fs.files or path in fs.tainted:
+            out.skipped = True
+            return out
+        prop = op.get("prop") or g.prop_read
+        data = fs.files[path]
+        layout = op.get("layout")
+        parg = _path_arg(path, op.get("path_type", "str"))
+        res, ctx = run_io(sess, fs, op.get("io"), lambda: g.read(parg, layout))
+        fired = list(ctx.fired)
+        out.note = ("io.read", op["game"], path, tuple(ctx.sizes[:400]), tuple(fired), res.ok, res.exc_name)
+        self._probes(out, ctx, data, fs)
+        inv = "I3.io.read." + op["game"]
+        sess.last_io = dict(id=op.get("id"), op=op, failed_by_fault=(not res.ok) and bool(fired))
+        if op.get("retry_of"):
+            out.probes.append("recover_retry_read")
+        if fs.files.get(path) != data:
+            out.fail(prop, inv, f"read_file changed the file: {len(data)} -> {len(fs.files.get(path, b''))} bytes")
+            fs.files[path] = data
+        if not res.ok:
+            sess.io_failed += 1
+            if any(k in ("eio_read",) for k in fired):
+                if not _is_oserror(res.exc):
+                    out.probes.append("read_error_surfaced_as_" + res.exc_name)
+                out.probes.append("read_fault_raised")
+                return out
+            # judge only texts the reference accepts (generator bugs are harness errors elsewhere)
+            try:
+                g.parse(data, layout)
+            except Exception as e:  # noqa
+                raise HarnessError(f"installed {op['game']} file is rejected by the reference parser: {e}")
+            unexpected(out, prop, inv, f"{op['game']} read_file", res)
+            return out
+        sess.io_ok += 1
+        try:
+            den = g.parse(data, layout)
+        except Exception as e:  # RefError: the stored text is not in the dialect
+            from ..ref.common import RefError
+
+            if isinstance(e, RefError):
+                out.note = out.note + ("unparseable",)
+                out.own_kind = False
+                return out
+            raise
+        a = g.alpha(res.value)
+        for m in g.cmp_read(den, a, layout)[:3]:
+            out.fail(prop, inv, m)
+        if fired:
+            out.probes.append("read_returned_despite_fault")
+        meta = dict(keys=den.get("keys", 4), read_from=path)
+        root = fs.lineage.get(path)
+        meta["lineage"] = root
+        meta["lineage_game"] = op["game"]
+        meta["src_den"] = den
+        meta["src_game"] = op["game"]
+        meta["lineage_snap"] = digest(snapshot(g.kind, res.value))
+        out.new.append((op["out"], g.kind, res.value, None, op["game"], meta))
+        return out
+
+    @staticmethod
+    def _probes(out, ctx, data, fs):
+        if ctx.short_calls:
+            out.probes.append("io_short_counts")
+        if b"\r\n" in data:
+            out.probes.append("read_crlf_file")
+        if ctx.bufsize < 16:
+            out.probes.append("io_tiny_buffer")
+            if any(b >= 0x80 for b in data):
+                out.probes.append("multibyte_split_across_raw_reads")
+            if b"\r\n" in data:
+                out.probes.append("crlf_split_across_raw_reads")
+
+
+@register
+class IoWrite(OpSpec):
+    name = "io.write"
+
+    def run(self, sess, op):
+        out = Outcome()
+        fs = get_fs(sess)
+        g = IO[op["game"]]
+        h = sess.world.get(op["h"])
+        if h.game != op["game"] or h.kind != g.kind:
+            out.skipped = True
+            return out
+        path = op["path"]
+        layout = op.get("layout")
+        prop = op.get("prop") or g.prop_write
+        a = g.alpha(h.obj)
+        why = g.writable(a, layout)
+        if why:
+            out.skipped = True
+            out.note = ("io.write", "out-of-domain", why)
+            return out
+        dest = op.get("dest")
+        if dest == "empty":
+            fs.files[path] = b""
+        elif dest == "longer":
+            fs.files[path] = STALE_LONG
+            out.probes.append("write_over_longer_file")
+        elif dest == "shorter":
+            fs.files[path] = STALE_SHORT
+        elif dest == "absent":
+            fs.files.pop(path, None)
+        parg = _path_arg(path, op.get("path_type", "str"))
+        scratch = path + ".dry"
+        res, ctx = run_io(sess, fs, op.get("io"), lambda: g.write(h.obj, parg, layout),
+                          dry=lambda: g.write(h.obj, _path_arg(scratch, op.get("path_type", "str")), layout))
+        fs.files.pop(scratch, None)
+        fired = list(ctx.fired)
+        out.note = ("io.write", op["game"], path, tuple(ctx.sizes[:400]), tuple(fired), res.ok, res.exc_name,
+                    digest(fs.files.get(path, b"")))
+        if ctx.short_calls:
+            out.probes.append("io_short_counts")
+        if ctx.bufsize < 16:
+            out.probes.append("io_tiny_buffer")
+        inv = "I3.io.write." + op["game"]
+        sess.last_io = dict(id=op.get("id"), op=op, failed_by_fault=(not res.ok) and bool(fired))
+        if op.get("retry_of"):
+            out.probes.append("recover_retry_write")
+        if not res.ok:
+            sess.io_failed += 1
+            fs.tainted.add(path)
+            fs.lineage.pop(path, None)
+            if any(k in ("eio_write", "enospc", "close_error") for k in fired):
+                out.probes.append("write_fault_raised")
+                return out
+            unexpected(out, prop, inv, f"{op['game']} write_file", res)
+            return out
+        sess.io_ok += 1
+        fs.tainted.discard(path)
+        data = fs.files.get(path)
+        if data is None:
+            out.fail(prop, inv, "write_file returned but no file exists at the path")
+            return out
+        if fired:
+            out.probes.append("write_returned_despite_fault")
+        try:
+            den = g.parse(data, layout)
+        except Exception as e:  # noqa
+            from ..ref.common import RefError
+
+            if not isinstance(e, RefError):
+                raise
+            out.fail(prop, inv, f"the written {op['game']} file is not well-formed: {e}")
+            fs.lineage.pop(path, None)
+            return out
+        for m in g.cmp_write(a, den, layout)[:3]:
+            out.fail(prop, inv, m)
+        # ---- H-gen: later generations denote what the first written generation denotes
+        root = h.meta.get("lineage")
+        same = h.meta.get("lineage_snap") == digest(snapshot(g.kind, h.obj)) and h.meta.get("lineage_game") == op["game"]
+        if root is not None and same and h.meta.get("lineage_layout") == layout:
+            for m in g.cmp_gen(den, root)[:3]:
+                out.fail(prop, "I3.io.gen." + op["game"], "write/read generations drift: " + m)
+            out.probes.append("generation_chain_step")
+            fs.lineage[path] = root
+        else:
+            fs.lineage[path] = den
+        # ---- C09: read -> convert -> write
+        pl = h.meta.get("pipeline")
+        if pl is not None and pl.get("snap") == digest(snapshot(g.kind, h.obj)):
+            from .pipeline import cmp_pipeline
+
+            for m in cmp_pipeline(pl, op["game"], den, layout)[:3]:
+                out.fail("C09", "I3.pipeline." + pl["conv"], m)
+            out.probes.append("pipeline_" + pl["conv"])
+        if b"\r\n" in data:
+            out.probes.append("written_file_has_crlf")
+        return out
+
+
+@register
+class IoRetry(OpSpec):
+    """H-recover: after a failed file op the same call with faults off must succeed
+    (executed as an ordinary io.read / io.write by the generator); this op only
+    marks the retry in the trace."""
+
+    name = "io.note"
+    operand_keys = ()
+    output_keys = ()
+
+    def run(self, sess, op):
+        out = Outcome(own_kind=False)
+        out.note = ("note", op.get("what"))
+        return out
 
 
 def twin_write(sess, game, A, B, op):
-    """Filled in with the file ops: returns (None, None, None) until the writers' oracles exist."""
-    return None, None, None
+    """C15 twins through a writer: both row orders must give files with the same denotation."""
+    g = IO.get(game)
+    if g is None:
+        return None, None, None
+    fs = get_fs(sess)
+    layout = op.get("args", {}).get("layout")
+    for X in (A, B):
+        if g.writable(g.alpha(X), layout):
+            return None, None, None
+
+    def wr(obj, path):
+        def f():
+            g.write(obj, path, layout)
+            return fs.files.get(path)
+
+        return f
+
+    ra, _ = run_io(sess, fs, None, wr(A, "/simfs/twinA" + g.ext))
+    rb, _ = run_io(sess, fs, None, wr(B, "/simfs/twinB" + g.ext))
+
+    def den(x, y):
+        from ..ref.common import RefError
+
+        try:
+            dx, dy = g.parse(x, layout), g.parse(y, layout)
+        except RefError as e:
+            return f"written file is not well-formed: {e}"
+        ms = g.cmp_gen(dx, dy)
+        return ms[0] if ms else ""
+
+    return ra, rb, den
+
+
+from . import files_osu  # noqa: E402,F401
